@@ -234,7 +234,7 @@ PROPS = {
     "C13": {
         "families": [("streams", 1200, 30000)],
         "monitors": ["C13", "C03"],
-        "theorems": ["C13_items_in_order_never_abandoned", "C13_end_protocol"],
+        "theorems": ["C13_items_in_order_never_abandoned", "C13_end_protocol", "C13_nothing_handled_after_the_stream_ended", "C13_stream_end_terminates_the_actor"],
         "nontrivial": nt_c13,
         "rule": "cases generated from (family, VERIF_SEED, index): harness-controlled streams (empty, finite, never-ending, released in bursts by client operations) on every stream spawn entry point, with messages, stops, handle drops interleaved; non-trivial = a stream-attached actor handled at least one item and also a message or a stop request; distinct = distinct case JSON",
         "assumptions": ["the select! tie-break is not seeded: every outcome the implementation produced is read off its trace"],
@@ -259,7 +259,7 @@ PROPS = {
     "C05": {
         "families": [("handles", 1000, 25000), ("mailbox", 200, 6000), ("timers", 200, 6000), ("registry", 300, 8000), ("children", 200, 6000), ("restart-bp", 400, 8000)],
         "monitors": ["C03", "C05"],
-        "theorems": ["C05_strong_counted_weak_not", "C05_drop_gives_back", "C05_upgrade_iff_strong_reference", "C05_last_drop_drains_then_stops", "C05_accounting_invariant", "C05_strong_handle_keeps_alive", "C05_no_exit_while_strongly_held", "C05_registry_keeps_alive", "C05_no_resurrection", "C05_upgrade_fails_for_ever", "C05_discipline_refines_the_model"],
+        "theorems": ["C05_strong_counted_weak_not", "C05_drop_gives_back", "C05_upgrade_iff_strong_reference", "C05_last_drop_drains_then_stops", "C05_accounting_invariant", "C05_strong_handle_keeps_alive", "C05_no_exit_while_strongly_held", "C05_registry_keeps_alive", "C05_no_resurrection", "C05_upgrade_fails_for_ever", "C05_discipline_refines_the_model", "C05_nothing_left_undone_when_the_run_ends"],
         "nontrivial": nt_c05,
         "rule": "cases generated from (family, VERIF_SEED, index): clone / downgrade / upgrade / convert between all seven handle kinds, moves between client tasks, drops in any order interleaved with submissions, timers and registry entries and child lists holding references; non-trivial = handles of at least two kinds were created, one was dropped, and an upgrade was attempted or the actor ended; distinct = distinct case JSON",
         "assumptions": ["broker subscriptions are covered by C09's family, not here"],
@@ -365,7 +365,7 @@ MANIFEST_TEXT = {
         "text": "Theorems (Coq): C05_accounting_invariant (for every trace the model accepts from its initial state there is an assignment of references to holders under which the count of references to each actor's waiting closure covers every strong handle in the table, every client operation holding a transient reference, every parked timer and the registry) with its consequences for every reachable state: "
                 "C05_strong_handle_keeps_alive (an actor any strong handle points to has a non-zero count: weak handles upgrade, the mailbox is not closed), C05_no_exit_while_strongly_held (when an actor nobody stopped takes the closed-mailbox exit every handle left is weak), C05_registry_keeps_alive; "
                 "and one-step theorems: C05_strong_counted_weak_not, C05_drop_gives_back, C05_upgrade_iff_strong_reference, C05_last_drop_drains_then_stops (the closed-mailbox exit needs an empty queue: everything accepted was handled). Broker subscriptions are C09 (the table holds no reference). "
-                "'Upgrading fails for ever once no strong handle is left': C05_no_resurrection / C05_upgrade_fails_for_ever - on every execution of any length that keeps the discipline 'a strong handle is made only from a live strong reference' (Chk/C05.v; the extracted chk_C05 checks it on every implementation trace, C05_discipline_refines_the_model), a count that has returned to zero stays zero and every later upgrade fails.",
+                "'Upgrading fails for ever once no strong handle is left': C05_no_resurrection / C05_upgrade_fails_for_ever - on every execution of any length that keeps the discipline 'a strong handle is made only from a live strong reference' (Chk/C05.v; the extracted chk_C05 checks it on every implementation trace, C05_discipline_refines_the_model), a count that has returned to zero stays zero and every later upgrade fails. C05_nothing_left_undone_when_the_run_ends: a run ends only with every live actor either inside user code or idle with an empty mailbox and still referenced (an accepted message is never left unhandled by a live actor; an unreferenced actor has gone on to terminate).",
         "note": COMMON_NOTE,
         "technique": "Rocq/Coq proof (invariant over all reachable states by induction over the trace, with a ghost assignment of references to holders; one-step theorems) over an executable model with explicit reference counts; correspondence by differential run of model and implementation",
         "design_ref": "DESIGN.md section 6 C05",
@@ -464,6 +464,7 @@ MANIFEST_TEXT = {
     "C13": {
         "text": "Theorems C13_items_in_order_never_abandoned and C13_end_protocol (Coq, simulation): on every execution the model accepts, stream items are handled exactly once in stream order, "
                 "nothing of a stream-attached actor is abandoned short of a task cancellation, and the end protocol finished-then-stopped-then-graceful-end holds (lifecycle automaton). "
+                "Over whole executions: C13_nothing_handled_after_the_stream_ended, C13_stream_end_terminates_the_actor (a run ends only when an actor whose stream has ended has terminated or still sits in its finished / stopped callback). "
                 "That stop / last drop terminate an actor whose stream never ends is checked as progress at every quiescence of the executor (model stability check) by correspondence on the streams family.",
         "note": COMMON_NOTE,
         "technique": "Rocq/Coq proof (simulation) over an executable model; correspondence by differential run of model and implementation",
